@@ -306,8 +306,14 @@ Section AsmE.
     (L, V, Q).
 
   (* ESolver::ChargeOnConductor; Depth is the member after AnalyzeProblem (planar: raw*units) *)
-  Definition charge_on_conductor (P : eprob) (Depth : F) (V : list F) (cond : nat) : F :=
+  (* [extfix] selects the variant of the source: false = elements of the exterior region integrated with the
+     unscaled permittivity (as shipped), true = divided by the same kludge the assembly uses (repaired) *)
+  Definition charge_on_conductor (P : eprob) (extfix : bool) (Depth : F) (V : list F) (cond : nat) : F :=
     let lc := adec A 1 (-3) in
+    let u := nth (unit_idx P) eunits one in
+    let extRo := extRo_raw P *. u in
+    let extRi := extRi_raw P *. u in
+    let extZo := extZo_raw P *. u in
     let Pv := map (fun n => match ncond n with
                             | Some c => if Nat.eqb c cond then one else zero
                             | None => zero end) (nodes P) in
@@ -324,6 +330,11 @@ Section AsmE.
         let a := da *. lc *. lc /. #2 in
         let a := if axi P then a *. (#2 *. api A *. lc *. (nx (nd 0) +. nx (nd 1) +. nx (nd 2)) /. #3)
                  else a *. (Depth *. lc) in
+        let a := if extfix && axi P && nth (elbl el) (label_ext P) false then
+                   let r := (nx (nd 0) +. nx (nd 1) +. nx (nd 2)) /. #3 in
+                   let z := (ny (nd 0) +. ny (nd 1) +. ny (nd 2)) /. #3 -. extZo in
+                   a /. ((r *. r +. z *. z) /. (extRi *. extRo))
+                 else a in
         let '(vx, vy, Dx, Dy) :=
           fold_left (fun acc k =>
             let '(vx, vy, Dx, Dy) := acc in
